@@ -16,3 +16,8 @@ type VerifShardManager = internal.VerifShardManager
 func NewVerifShardManager(pool rpc.ClientPool, serviceAddress string, namespace string, requestTimeout time.Duration) (*VerifShardManager, error) {
 	return internal.NewVerifShardManager(pool, serviceAddress, namespace, requestTimeout)
 }
+
+func NewVerifShardManagerWithHash(pool rpc.ClientPool, serviceAddress string, namespace string, requestTimeout time.Duration,
+	hashFunc func(key string) uint32) (*VerifShardManager, error) {
+	return internal.NewVerifShardManagerWithHash(pool, serviceAddress, namespace, requestTimeout, hashFunc)
+}
